@@ -135,6 +135,7 @@ func (d *dec) parseHeaderV1(addr uint64) *header {
 			}
 			m := rawMsg{typ: typ, flags: flags, abs: cc.org + uint64(cc.pos), chunk: ci}
 			m.data = cc.bytes(size, "message data")
+			d.f.Marks = append(d.f.Marks, m.abs-8, m.abs)
 			if len(h.msgs) >= maxHeaderMsgs {
 				d.fail("%s: more than %d messages", cw, maxHeaderMsgs)
 			}
@@ -241,6 +242,7 @@ func (d *dec) parseHeaderV2(addr uint64) *header {
 			}
 			m.abs = cc.org + uint64(cc.pos)
 			m.data = cc.bytes(size, "message data")
+			d.f.Marks = append(d.f.Marks, m.abs-uint64(mhdr), m.abs)
 			if len(h.msgs) >= maxHeaderMsgs {
 				d.fail("%s: more than %d messages", cw, maxHeaderMsgs)
 			}
